@@ -111,7 +111,8 @@ def drive(evaluator, case, events=None, returned=None):
                 next_id += len(xs)
                 ev = [0, [[x, fval(x)] for x in xs], exc]
             elif kind == "gather":
-                _, all_, k, groups_spec, pause = op
+                _, all_, k, groups_spec, pause = op[:5]
+                hold = len(op) > 5 and op[5] == "hold"
                 if events is not None and evaluator.loop is not None and inflight:
                     # release every in-flight job, in groups given as index lists into the current in-flight list
                     groups, left = [], list(inflight)
@@ -120,7 +121,8 @@ def drive(evaluator, case, events=None, returned=None):
                         grp = list(dict.fromkeys(grp))
                         left = [j for j in left if j not in grp]
                         groups.append(grp)
-                    groups.append(left)
+                    if not hold:
+                        groups.append(left)
                     conductors.append(evaluator.loop.create_task(_conductor(events, groups, pause)))
                 exc, res = 0, []
                 try:
@@ -318,7 +320,7 @@ def gen_history(rng, maxops, close_p=0.15):
             ops.append(["dump"])
         else:
             all_ = rng.random() < 0.35
-            k = rng.choice([1, 1, 2, 3, 4, 6])
+            k = rng.choice([1, 1, 2, 3, 4, 6, 0])  # 0: the code skips the wait and hands back what is finished already
             ngroups = rng.choice([0, 1, 1, 2, 3])
             groups = [[rng.randint(0, 7) for _ in range(rng.choice([1, 1, 2, 3]))] for _ in range(ngroups)]
             ops.append(["gather", all_, k, groups, rng.choice([0, 1, 3, 6])])
@@ -334,6 +336,30 @@ def gen_history(rng, maxops, close_p=0.15):
     return ops
 
 
+def gen_close_reuse(rng, workers):
+    """close() that cancels jobs, the evaluator used again, a LATER job handed back by a BATCH gather before an earlier one,
+    and a second close while the earlier one still runs - 1 to 3 such rounds (bookkeeping that survives a cancelling close)"""
+    ops, x = [], 0
+    for _ in range(rng.randint(2, 3)):
+        k = rng.randint(2, 4)
+        ops.append(["submit", list(range(x, x + k))])
+        x += k
+        if rng.random() < 0.7:
+            # release only one of the later jobs (index >= 1 of the in-flight list); a long pause keeps the others running
+            # (one that holds a worker: a job queued behind the semaphore cannot finish while the others keep their workers)
+            ops.append(["gather", False, 1, [[rng.randint(1, min(k, workers) - 1)], []], 0, "hold"])
+        if rng.random() < 0.3:
+            ops.append(["settle"])
+        ops.append(["close"])
+        if rng.random() < 0.5:
+            ops.append(["dump"])
+    ops.append(["submit", [x]])
+    ops.append(["gather", True, 1, [], 1])
+    ops.append(["close"])
+    ops.append(["dump"])
+    return ops
+
+
 def gen_serial(count):
     def gen(rng, tier):
         # the shortest history that needs a usable evaluator after close comes first
@@ -341,9 +367,15 @@ def gen_serial(count):
         yield dict(workers=2, ops=[["submit", [0, 1, 2]], ["gather", False, 1, [[0, 1]], 1], ["close"], ["dump"], ["submit", [3]], ["gather", False, 2, [], 0], ["close"], ["dump"]])
         # a job that finishes while the loop is still running after a BATCH gather was satisfied, then close
         yield dict(workers=3, ops=[["submit", [0, 1, 2]], ["gather", False, 1, [[0], [1]], 1], ["settle"], ["close"], ["dump"]])
+        # a BATCH gather that does not wait (size 0) while jobs are in flight, then more work
+        yield dict(workers=2, ops=[["submit", [0, 1, 2]], ["gather", False, 1, [[0]], 1], ["gather", False, 0, [], 0], ["submit", [3]], ["gather", True, 1, [], 1], ["close"], ["dump"]])
         n = count * (4 if tier == "search" else 1)
-        for _ in range(n):
-            yield dict(workers=rng.choice([1, 1, 2, 3, 4]), ops=gen_history(rng, 6 if tier == "search" else 12), alias=rng.random() < 0.5)
+        for i in range(n):
+            if i % 5 == 4:
+                w = rng.choice([2, 2, 3, 4])
+                yield dict(workers=w, ops=gen_close_reuse(rng, w), alias=rng.random() < 0.5)
+            else:
+                yield dict(workers=rng.choice([1, 1, 2, 3, 4]), ops=gen_history(rng, 6 if tier == "search" else 12), alias=rng.random() < 0.5)
     return gen
 
 
@@ -364,7 +396,7 @@ def shrink(case):
         if o[0] == "submit" and len(o[1]) > 1:
             yield dict(case, ops=ops[:i] + [["submit", o[1][:-1]]] + ops[i + 1:])
         if o[0] == "gather" and o[3]:
-            yield dict(case, ops=ops[:i] + [[o[0], o[1], o[2], o[3][:-1], o[4]]] + ops[i + 1:])
+            yield dict(case, ops=ops[:i] + [[o[0], o[1], o[2], o[3][:-1]] + o[4:]] + ops[i + 1:])
     if case["workers"] > 1:
         yield dict(case, workers=case["workers"] - 1)
 
